@@ -20,8 +20,10 @@ import (
 	"errors"
 	"fmt"
 	"io"
+	"maps"
 	"net/http"
 	"net/url"
+	"slices"
 	"strconv"
 	"strings"
 	"sync"
@@ -653,17 +655,13 @@ func (o *operation) resolveMethod(transcoder *Transcoder) error {
 		if len(methods) == 0 {
 			return errNotFound
 		}
-		var sb strings.Builder
-		for method := range methods {
-			if sb.Len() > 0 {
-				sb.WriteByte(',')
-			}
-			sb.WriteString(method)
-		}
+		// Sorted, so that the same request always gets the same response
+		// (Go randomizes the order of a range over a map).
+		allowed := slices.Sorted(maps.Keys(methods))
 		return &httpError{
 			code: http.StatusMethodNotAllowed,
 			header: http.Header{
-				"Allow": []string{sb.String()},
+				"Allow": []string{strings.Join(allowed, ",")},
 			},
 		}
 	}
